@@ -19,6 +19,8 @@ type Item struct {
 	E     Expr
 	Src   string
 	Line  int
+	// OnlyIf: a precondition labelled [name@flag] is an obligation only in callers that carry `opt flag`
+	OnlyIf string
 }
 
 type LoopSpec struct {
@@ -151,7 +153,7 @@ type rawItem struct {
 	line int
 }
 
-var labelRe = regexp.MustCompile(`^\[([A-Za-z0-9_\-.:]+)\]\s*`)
+var labelRe = regexp.MustCompile(`^\[([A-Za-z0-9_\-.:@]+)\]\s*`)
 
 func (cs *Contracts) LoadFile(path string, pkgPath string, external bool) {
 	data, err := os.ReadFile(path)
@@ -381,6 +383,10 @@ func (cs *Contracts) LoadFile(path string, pkgPath string, external bool) {
 				label = m[1]
 				txt = txt[len(m[0]):]
 			}
+			onlyIf := ""
+			if j := strings.Index(label, "@"); j >= 0 {
+				label, onlyIf = label[:j], label[j+1:]
+			}
 			for _, fc := range cur {
 				switch it.kw {
 				case "recvinv":
@@ -425,7 +431,7 @@ func (cs *Contracts) LoadFile(path string, pkgPath string, external bool) {
 					if curLoop != nil && it.kw == "assume" {
 						fc.Loops[curLoop.Ord].Items = append(fc.Loops[curLoop.Ord].Items, Item{Kind: it.kw, Label: label, E: parse(it, txt), Src: txt, Line: it.line})
 					} else {
-						fc.Items = append(fc.Items, Item{Kind: it.kw, Label: label, E: parse(it, txt), Src: txt, Line: it.line})
+						fc.Items = append(fc.Items, Item{Kind: it.kw, Label: label, E: parse(it, txt), Src: txt, Line: it.line, OnlyIf: onlyIf})
 					}
 				case "let":
 					j := strings.Index(txt, "=")
